@@ -104,7 +104,9 @@ def gen_term(rng, names, depth):
         items = [gen_term(rng, names, depth - 1) for _ in range(n)]
         tail = None
         if n > 0 and rng.random() < 0.4:
-            tail = gen_var(rng, names) if rng.random() < 0.8 else ("atom", "foo")
+            # (an atom tail after one-char atoms makes the library API's answer conversion panic:
+            # notes/findings-misc.md; integer tails are fine)
+            tail = gen_var(rng, names) if rng.random() < 0.8 else ("num", "7")
         return ("list", items, tail)
     if r < 0.72:
         n = rng.choice([1, 2, 3])
@@ -546,7 +548,7 @@ def run(ctx):
                  for i, c in enumerate(diff.load_corpus("C45"))]
         sp = special_items()
         cases.append(make_case("sp", sp, tmpdir))
-        n = 2500 if tier == "quick" else 40000
+        n = 1800 if tier == "quick" else 40000
         items = [gen_item(rng, 4 if tier == "quick" else 5) for _ in range(n)]
         for i in range(0, len(items), 50):
             cases.append(make_case("g%d" % (i // 50), items[i:i + 50], tmpdir))
